@@ -7,17 +7,33 @@ TRUSTED = [
     "Coq 8.16.1 kernel (coqc), vm_compute for case evaluation; no native_compute",
     "hand-written token-level model props/C12/coq/Model.v of parseSeqQLFilter/parseExpr/propagateNot"
     " (tied to /repo by the correspondence run, not verified code)",
-    "Go harness harness/cmd/hC12 (generators, AST printer, text rendering of token lists)",
-    "rune-level lexer, quoting, range/pipe parsing: NOT modelled; totality on raw strings is fuzzed (test, not proof)",
+    "hand-written byte-level model props/C12/coq/Lexer.v of lexer.Next (spaces, comments, simple tokens, wildcard,"
+    " the three quote kinds, unquotePrefix fast/slow path), utf8.DecodeRuneInString/AppendRune, strconv.UnquoteChar,"
+    " EqualFold against ASCII keywords, parseCompositeToken, field filter / in(..) / range / pipes"
+    " (tied to /repo by comparing the REAL lexer's token dump and ParseSeqQL's result shape on every generated string)",
+    "Go harness harness/cmd/hC12 (generators, AST printer, text rendering of token lists, dump of unicode classes"
+    " and of indexType through parser/export_verif_c12.go)",
+    "Go's unicode tables enter as per-case class data (oracle instance), never as axioms",
+    "legacy ParseQuery and ParseAggregationFilter on raw bytes: NOT modelled below token level; fuzzed only",
 ]
 ASSUME = [
-    "token-level abstraction: a field filter (k:v, k:in(..), text field with k words) is one token",
-    "raw-byte totality (no panic / no hang) is established by fuzzing only (PARTIAL)",
+    "token-level abstraction (semantics theorems): a field filter (k:v, k:in(..), text field with k words) is one token",
+    "stage 2 theorems hold for every class oracle that does not classify U+FFFD as space/letter/digit (true of Go's"
+    " tables; checked on every generated case) and for every field mapping",
+    "lexer-to-parser glue abstracts values: a keyword/path literal and a range are one leaf, a text literal is the AND"
+    " of its words, in(..) is the parenthesised OR of its members, a pipe section ends the token list; term contents,"
+    " case folding of values and pipe field names are not modelled",
+    "raw-byte totality of the legacy parser (ParseQuery) and of ParseAggregationFilter is established by fuzzing only (PARTIAL)",
 ]
 RULE = ("exhaustive: all boolean trees up to the tier's node bound over 3 atoms x minimal/full parentheses x "
         "SeqQL/legacy parser; random deeper expressions with in(..)/text words; mutated token lists; "
-        "propagateNot on random trees; raw-string fuzz over every mapping type. non-trivial = expression has "
-        "a NOT and a binary operator / token list parses / tree has NOT and OR; distinct by input")
+        "propagateNot on random trees; stage 2: fixed hostile strings + grammar-derived/mutated/fragment-built raw strings "
+        "(three quote kinds, escapes, comments, invalid UTF-8, U+E000, unterminated quotes with escaped quote characters) "
+        "through the real lexer and ParseSeqQL under full/nil/empty mapping vs the byte-level model (token texts, flags, "
+        "result shape); generated token lists rendered in every quote style and lexed back (spec: the generator's tokens); "
+        "raw-string fuzz of all three entry points over every mapping type. non-trivial = expression has "
+        "a NOT and a binary operator / token list parses / tree has NOT and OR / raw string has >= 3 tokens and a quoted "
+        "token, a comment or parses / round trip of >= 2 atoms; distinct by input")
 
 
 def harness_args(tier, seed, outdir):
